@@ -42,6 +42,10 @@ func ResolveRef(root interface{}, ref *Ref) (*Schema, error) {
 	case Schema:
 		return &sch, nil
 	case *Schema:
+		if sch == nil {
+			// an unset schema member of a typed document: the JSON document has no such member
+			return nil, fmt.Errorf("%s points to an unset member: %w", ref.String(), ErrSpec)
+		}
 		return sch, nil
 	case map[string]interface{}:
 		newSch := new(Schema)
